@@ -98,7 +98,8 @@ def assign_ids(rng, recs, gtf, ids):
         for kv in rec["attrs"]:
             k = kv[0]
             if k == "ID":
-                kv[1] = [("id%d" % i) if ids == "unique" else rng.choice(pool)]
+                # unique ids include twins that differ only in letter case (idA / IDa / ida are three features)
+                kv[1] = [(["id%d", "ID%d", "Id%d"][i % 3] % (i // 3)) if ids == "unique" else rng.choice(pool)]
             elif k == "gene_id":
                 kv[1] = ["G%d" % rng.randrange(1, 4)]
             elif k == "transcript_id":
